@@ -14,7 +14,7 @@ open P2P P2P.Topology P2P.Atoms P2P.Stages P2P.Gen.Topology P2P.Proofs.StagesTab
 structure Combo where
   base : Str
   pre : Str            -- terminus prefix of the named definition
-  early : List Str     -- terminus patches applied after PEPTIDE, before repair
+  early : List Str     -- terminus patches applied before repair (`set_termini`); a residue inside a chain gets PEPTIDE instead (`update_bonds`)
   state : Option Str   -- state patch applied after repair
 deriving Repr, DecidableEq
 
@@ -53,7 +53,7 @@ structure Resolved where
 deriving Repr
 
 def resolve (c : Combo) : Option Resolved :=
-  match findRes residues c.base, patchesOf (str "PEPTIDE" :: c.early), patchesOf c.state.toList,
+  match findRes residues c.base, patchesOf (if c.early.isEmpty then [str "PEPTIDE"] else c.early), patchesOf c.state.toList,
       findRes residues (c.pre ++ c.state.getD c.base) with
   | some base, some early, some late, some named => some { base, early, late, named }
   | _, _, _, _ => none
